@@ -215,6 +215,11 @@ pub enum Content {
     CleanableWithOwner,
     /// object with a registered cleaning action that touches the API
     CleanerAction,
+    /// a value whose destructor (run by the thread-local's destructor) uses the collector API
+    /// directly: 0 = collect_cycles(); 1 = collect_cycles() then create and release an object;
+    /// 2 = collect_cycles() then query the state (is_tracing() must be false outside collections);
+    /// 3 = collect_cycles() then try_unwrap of a unique Cc (must be Ok)
+    Hook(u8),
 }
 
 #[derive(Clone, Debug, PartialEq, Eq, Hash, Serialize, Deserialize)]
@@ -253,6 +258,7 @@ pub fn teardown_strategy() -> BoxedStrategy<DCase> {
         2 => Just(Content::WeakDead),
         2 => Just(Content::CleanableWithOwner),
         2 => Just(Content::CleanerAction),
+        3 => (0u8..4).prop_map(Content::Hook),
     ];
     let slot = (any::<bool>(), prop::collection::vec(content, 0..=4), 0u8..4).prop_map(|(before_collector, contents, fin_action)| Slot { before_collector, contents, fin_action });
     (prop::collection::vec(slot, 1..=3), 0u8..3, any::<bool>(), any::<bool>())
@@ -267,6 +273,31 @@ enum Item {
     Weak(Weak<TNode>),
     #[cfg(feature = "cleaners")]
     Cleanable(Cleanable),
+    Hook(Hook),
+}
+
+pub static STATE_WRONG: AtomicU32 = AtomicU32::new(0);
+
+pub struct Hook(u8);
+impl Drop for Hook {
+    fn drop(&mut self) {
+        collect_cycles();
+        match self.0 {
+            1 => drop(Cc::new(7u32)),
+            2 => {
+                if rust_cc::state::is_tracing().unwrap_or(false) {
+                    STATE_WRONG.fetch_add(1, Ordering::SeqCst);
+                }
+            }
+            3 => {
+                let c = Cc::new(9u32);
+                if rust_cc::state::is_tracing().unwrap_or(false) || c.try_unwrap().is_err() {
+                    STATE_WRONG.fetch_add(1, Ordering::SeqCst);
+                }
+            }
+            _ => {}
+        }
+    }
 }
 
 thread_local! {
@@ -326,6 +357,7 @@ fn fill(slot: &Slot) -> Vec<Item> {
                     v.push(Item::Cc(a));
                 }
             }
+            Content::Hook(k) => v.push(Item::Hook(Hook(*k))),
             Content::CleanerAction => {
                 #[cfg(feature = "cleaners")]
                 {
@@ -403,6 +435,10 @@ pub fn teardown_child(case: &DCase) -> i32 {
     if DEAD_CANARY.load(Ordering::SeqCst) != 0 {
         eprintln!("a callback ran on a dead value during teardown");
         return 5;
+    }
+    if STATE_WRONG.load(Ordering::SeqCst) != 0 {
+        eprintln!("after collect_cycles() in a thread-local destructor the collector claims to be tracing / refuses try_unwrap of a unique Cc");
+        return 6;
     }
     0
 }
